@@ -5,3 +5,14 @@ i18nspector's private modules
 # pylint: disable=multiple-statements
 async def _(): return f'{await "# Python >= 3.7 is required #"}'
 del _
+
+import sys
+
+if hasattr(sys, 'set_int_max_str_digits'):
+    # Python >= 3.11 refuses to convert decimal strings longer than 4300 digits.
+    # Numbers in checked files (plural expressions, nplurals, format-string
+    # widths, range flags, ...) can be arbitrarily long,
+    # and must not make int() raise ValueError.
+    sys.set_int_max_str_digits(0)
+
+del sys
